@@ -91,6 +91,17 @@ func Corpus() []Scenario {
 		// (as pool_test.go's invokeErrConn does); the replacement runs next to the old connection
 		{Name: "h:dead-error-before-run-exit", Max: 1, Callers: 1, Loose: true, Ops: cat(hold(0, 0), []Op{
 			{Op: "finish", A: 0, Out: "dead"}, {Op: "step", A: 0}, {Op: "step", A: 0}, {Op: "step", A: 0}})},
+		// a death frees a slot while the other connections stay busy and nobody releases: the registered
+		// waiters must be woken (stuck signal) and one of them creates the replacement
+		{Name: "i1:death-frees-slot-others-busy:max=2", Max: 2, Callers: 3, Ops: cat(hold(0, 0), hold(1, 1), []Op{
+			{Op: "start", A: 2}, {Op: "step", A: 2, Until: "pool.acq.wait"}, {Op: "step", A: 2},
+			{Op: "kill", A: 0}, {Op: "step", A: ActRun0}, {Op: "step", A: ActRun0}, {Op: "step", A: ActRun0},
+			{Op: "checkpoint"}})},
+		{Name: "i2:death-frees-slot-others-busy:max=3", Max: 3, Callers: 5, Ops: cat(hold(0, 0), hold(1, 1), hold(2, 2), []Op{
+			{Op: "start", A: 3}, {Op: "step", A: 3, Until: "pool.acq.wait"}, {Op: "step", A: 3},
+			{Op: "start", A: 4}, {Op: "step", A: 4, Until: "pool.acq.wait"}, {Op: "step", A: 4},
+			{Op: "kill", A: 1}, {Op: "step", A: ActRun0 + 1}, {Op: "step", A: ActRun0 + 1}, {Op: "step", A: ActRun0 + 1},
+			{Op: "checkpoint"}})},
 		{Name: "f:death-while-in-channel", Max: 1, Callers: 2, Ops: cat(hold(0, 0), []Op{
 			{Op: "start", A: 1}, {Op: "step", A: 1, Until: "pool.acq.wait"},
 			{Op: "finish", A: 0, Out: "ok"}, {Op: "step", A: 0, Until: "h.ret"},
